@@ -81,6 +81,8 @@ def small_table(rng, z, lo, hi, neg_vals=False):
         t["vi"] = [signed(rng, v, 0.4) for v in t["vi"]]
     if rng.random() < 0.2:
         t["io"] = [int(v) if (v == int(v) and rng.random() < 0.5) else v for v in t["io"]]
+    if rng.random() < 0.1 and 0 < t["io"][0] < t["io"][1]:
+        t["io"][0] = -t["io"][0]               # still increasing, as given and in magnitude
     return t
 
 
@@ -262,10 +264,13 @@ def gen_malformed(rng, kind, cause=None):
             del t[rng.choice(["vi", "io", z])]
         elif cause == "io_not_increasing":
             k = rng.randrange(len(t["io"]) - 1)
-            if rng.random() < 0.5:
+            r = rng.random()
+            if r < 0.4:
                 t["io"][k + 1] = t["io"][k]
-            else:
+            elif r < 0.8:
                 t["io"][k], t["io"][k + 1] = t["io"][k + 1], t["io"][k]
+            else:                               # increasing as given, not in magnitude (former finding F11)
+                t["io"] = sorted(-abs(x) - (0.01 if x == 0 else 0.0) for x in t["io"])
         elif cause == "shape_mismatch":
             r = rng.random()
             if r < 0.3:
@@ -378,8 +383,8 @@ def table_causes(t, z, nonneg=False, unit=False):
         return ["table_missing_key"]
     vi, io, zz = t["vi"], t["io"], t[z]
     if isinstance(io, list) and all(isnum(x) for x in io):
-        if any(not (b > a) for a, b in zip(io, io[1:])):
-            out.append("io_not_increasing")
+        if any(not (b > a) for a, b in zip(io, io[1:])) or any(not (abs(b) > abs(a)) for a, b in zip(io, io[1:])):
+            out.append("io_not_increasing")      # the axis is looked up in magnitude
     else:
         return out
     if isinstance(vi, list) and isinstance(zz, list) and all(isinstance(r, list) for r in zz) and len(zz) > 0:
@@ -415,8 +420,8 @@ def must_reject(kind, a):
         if isnum(vo) and isnum(vd) and abs(vd) >= abs(vo):
             out.append("linreg_dropout")
         iq = a.get("iq", 0.0)
-        if isinstance(iq, dict):
-            out += table_causes(iq, "iq", nonneg=True)
+        if isinstance(iq, dict):                   # deprecated spelling: value key "iq" (renamed) or already "ig"
+            out += table_causes(iq, "iq" if "iq" in iq else "ig", nonneg=True)
         elif isnum(iq) and iq == 0.0:
             out += table_causes(a.get("ig"), "ig", nonneg=True)
     if kind == "rload":
